@@ -1364,7 +1364,7 @@ func (r *seqRun) stepReaddir(name string, op Op, hr handleRef, base *mnode) {
 			}
 			seen[e.Name]++
 			child := joinPath(hr.path, e.Name)
-			if !r.loose && e.Fileid != fileidFor(r, child, e.Fileid) {
+			if !r.loose && r.sc.Kind != "C05" && r.sc.Kind != "C06" && e.Fileid != fileidFor(r, child, e.Fileid) {
 				r.vio(r.own("readdir-fileid"), "plus="+fmt.Sprint(plus), "%s: entry %q has fileid %d, other replies report %d for that object", name, e.Name, e.Fileid, r.ident[child][1])
 			}
 			if plus {
@@ -1390,8 +1390,8 @@ func (r *seqRun) stepReaddir(name string, op Op, hr handleRef, base *mnode) {
 			return
 		}
 	}
-	if r.loose {
-		return
+	if r.loose || r.sc.Kind == "C05" || r.sc.Kind == "C06" {
+		return // listing completeness is C02/C26's business; handle workloads evict at will
 	}
 	want := r.model.children(hr.path)
 	r.o.Checks++
